@@ -252,6 +252,71 @@ impl ReceiverLinkD {
 }
 
 // ---------------------------------------------------------------------------------------------
+// ReceiverLink::on_complete_transfer (C09 credit enforcement, C02 unsettled bookkeeping)
+//@@ trusted FromBody::decode_message_from_reader(payload.into_reader()) is a stand-in `decode_message(payload)` (result unconstrained); the receiver flow state is a stand-in carrying the contract of LinkFlowState<ReceiverMarker>::consume proved in unit LINKFLOW
+opaque!(Msg, SerdeErr);
+//@@ type file=fe2o3-amqp/src/link/error.rs kind=struct name=MessageDecodeError
+//@@ subst `serde_amqp::Error` => `SerdeErr` rule=R11
+//@@ end
+//@@ type file=fe2o3-amqp/src/link/error.rs kind=enum name=ReceiverTransferError
+//@@ end
+//@@ type file=fe2o3-amqp/src/link/delivery.rs kind=struct name=Delivery
+//@@ subst `Delivery<T>` => `Delivery` rule=R7
+//@@ subst `Message<T>` => `Msg` rule=R7
+//@@ end
+#[verifier::external_body]
+pub fn decode_message<P>(payload: P) -> (r: Result<Msg, SerdeErr>) { unimplemented!() }
+#[verifier::external_body]
+pub fn received_state(section_number: u32, section_offset: u64) -> (r: DeliveryState) { unimplemented!() }
+pub struct RFlowS { pub credit: u32, pub count: u32 }
+impl RFlowS {
+    /// [C09.enforce.overrun] / [C09.enforce.account] of unit LINKFLOW
+    #[verifier::external_body]
+    pub fn consume(&mut self, n: u32) -> (r: Result<(), ReceiverTransferError>)
+        ensures
+            old(self).credit < n ==> r == Err::<(), ReceiverTransferError>(ReceiverTransferError::TransferLimitExceeded) && *final(self) == *old(self),
+            old(self).credit >= n ==> r is Ok && final(self).credit == old(self).credit - n && final(self).count == add32(old(self).count, n as int),
+    { unimplemented!() }
+}
+pub struct ReceiverLinkT {
+    pub local_state: LinkState,
+    pub flow_state: RFlowS,
+    pub rcv_settle_mode: ReceiverSettleMode,
+    pub unsettled: Option<OrderedMap<DeliveryTag, Option<DeliveryState>>>,
+    pub output_handle: Option<OutputHandle>,
+}
+impl ReceiverLinkT {
+//@@ fn file=fe2o3-amqp/src/link/receiver_link.rs impl=`~impl<Tar>endpoint::ReceiverLinkforReceiverLink<Tar>` name=on_complete_transfer
+//@@ generics <P>
+//@@ nowhere
+//@@ ret Result<Delivery, ReceiverTransferError>
+//@@ subst `T::decode_message_from_reader(payload.into_reader())` => `decode_message(payload)` rule=R7
+//@@ subst `DeliveryState::Received(Received { section_number, section_offset, })` => `received_state(section_number, section_offset)` rule=R11
+//@@ subst `let mut lock = self.unsettled.write();` => `let mut lock = &mut self.unsettled;` rule=R4
+//@@ subst `lock .get_or_insert(OrderedMap::new()) .insert(delivery_tag.clone(), Some(state))` => `opt_insert(&mut *lock, delivery_tag.clone(), Some(state))` rule=R15
+//@@ subst `MessageDecodeError { source, info }.into()` => `ReceiverTransferError::MessageDecode(MessageDecodeError { source, info })` rule=R16
+//@@ subst `let link_output_handle = self .output_handle .clone() .ok_or(ReceiverTransferError::IllegalState)? .into();` => `let link_output_handle = output_to_handle(self.output_handle.clone().ok_or(ReceiverTransferError::IllegalState)?);` rule=R16
+//@@ spec
+    ensures
+        !(old(self).local_state is Attached || old(self).local_state is IncompleteAttachExchanged) ==>
+            r is Err && final(self).flow_state == old(self).flow_state && final(self).unsettled == old(self).unsettled,    // [C13.link.no-delivery-unless-attached] a transfer on a link that is not attached is refused before anything is accounted
+        (old(self).local_state is Attached || old(self).local_state is IncompleteAttachExchanged) && old(self).flow_state.credit == 0 ==>
+            r == Err::<Delivery, ReceiverTransferError>(ReceiverTransferError::TransferLimitExceeded)
+            && final(self).flow_state == old(self).flow_state && omap(final(self).unsettled) == omap(old(self).unsettled),   // [C09.enforce.before-delivery] a delivery beyond the credit issued is rejected as a transfer-limit violation BEFORE it is decoded, recorded or delivered
+        (old(self).local_state is Attached || old(self).local_state is IncompleteAttachExchanged) && old(self).flow_state.credit > 0 ==>
+            final(self).flow_state.credit == old(self).flow_state.credit - 1
+            && final(self).flow_state.count == add32(old(self).flow_state.count, 1),                                      // [C09.enforce.one-credit-per-delivery] every complete delivery (however many frames carried it) takes exactly one credit and advances delivery-count by one
+        r is Ok ==> ({
+            let presettled = transfer.settled is Some && transfer.settled->Some_0;
+            &&& transfer.delivery_id == Some(r->Ok_0.delivery_id) && transfer.delivery_tag == Some(r->Ok_0.delivery_tag)   // [C02.receiver.delivery-identity] the delivery handed to the application carries the transfer's own id and tag
+            &&& presettled ==> omap(final(self).unsettled) == omap(old(self).unsettled)                                  // [C02.receiver.presettled-not-recorded]
+            &&& !presettled ==> omap(final(self).unsettled).dom() =~= omap(old(self).unsettled).dom().insert(r->Ok_0.delivery_tag)   // [C02.receiver.unsettled-recorded] an unsettled delivery is recorded in the receiver's unsettled map under its own tag
+        }),
+        final(self).local_state == old(self).local_state && final(self).rcv_settle_mode == old(self).rcv_settle_mode,
+//@@ end
+}
+
+// ---------------------------------------------------------------------------------------------
 // Link<R,T,F,M>: detach state machine (C13)
 //@@ type file=fe2o3-amqp/src/link/mod.rs kind=struct name=Link
 //@@ attr #[verifier::reject_recursive_types(M)]
